@@ -96,6 +96,16 @@ fn main() {
             inst::cleanup_scratch();
             0
         }
+        // `exec-case <prop> <file>`: run one explicit case (development aid)
+        "exec-case" => {
+            let p = find(&args[2]);
+            let case: serde_json::Value = serde_json::from_str(&std::fs::read_to_string(&args[3]).expect("case file")).expect("json");
+            let t0 = std::time::Instant::now();
+            let out = p.execute(&case);
+            println!("violation: {:?}\nstats: {:?}\nnontrivial: {} wall: {:?}", out.violation, out.stats.counts, out.nontrivial, t0.elapsed());
+            inst::cleanup_scratch();
+            0
+        }
         _ => usage(),
     };
     std::process::exit(code);
